@@ -25,7 +25,7 @@ pub fn step(ctx: &Ctx, w: &World, ev: &mut Ev) {
     }
     let d = w.d;
     let ifund = w.addrs.insurance_fund.clone();
-    let fpool = ctx.pre.eng.as_ref().map(|e| e.fee_pool.clone()).unwrap_or_else(|| w.addrs.fee_pool.clone());
+    let fpool = ctx.model.fee_pool_ref.clone().unwrap_or_else(|| w.addrs.fee_pool.clone());
     let actor = w.resolve(&ctx.step.actor);
     // inflows as they concern fees: anything reaching the pools that is not the engine settling funding / liquidation proceeds
     let to_if = ctx.inflow(&ifund);
